@@ -494,4 +494,43 @@ Definition valid_trace (GG : gdag) (cap : nat) (tr : list (glabel Rp Ra)) : bool
                  && forallb (fun p => match get (ginner s) p with Some si => negb (bad si) | None => true end) (inits tr)
      | None => false
      end.
+(* ---- the same checker, evaluating the well-formedness of every DISTINCT analyzer graph once ---- *)
+(* (all packages of a run have one of two analyzer graphs; wf_dagb is the expensive part of GInit) *)
+Definition gstep_nowf (strict : bool) (GG : gdag) (cap : nat) (s : gstate Rp Ra) (l : glabel Rp Ra) : option (gstate Rp Ra) :=
+  match l with
+  | GInit p =>
+      if running s p && isNone (get (ginner s) p) then
+        Some (mkg (gtop s) (set (ginner s) p (Some (init (ginnerd GG p)))) (gfree s) (gover s))
+      else None
+  | _ => gstep strict GG cap s l
+  end.
+Fixpoint grun_nowf (strict : bool) (GG : gdag) (cap : nat) (s : gstate Rp Ra) (tr : list (glabel Rp Ra)) : option (gstate Rp Ra) :=
+  match tr with
+  | [] => Some s
+  | l :: r => match gstep_nowf strict GG cap s l with Some s' => grun_nowf strict GG cap s' r | None => None end
+  end.
+
+Fixpoint assoc_idx (p : nat) (assign : list (nat * nat)) (dflt : nat) : nat :=
+  match assign with [] => dflt | (q, i) :: r => if q =? p then i else assoc_idx p r dflt end.
+(* analyzer graphs shared between packages: package p has graph number [assoc_idx p assign] of [tabs] *)
+Definition gdag_of_shared (top : list row) (tabs : list (list row)) (assign : list (nat * nat)) : gdag :=
+  mkgdag (dag_of_table top) (fun p => dag_of_table (nth (assoc_idx p assign (length tabs)) tabs [])).
+
+Definition valid_trace_fast (top : list row) (tabs : list (list row)) (assign : list (nat * nat)) (cap : nat)
+           (tr : list (glabel Rp Ra)) : bool :=
+  let GG := gdag_of_shared top tabs assign in
+  (1 <=? cap) && wf_dagb (gtopd GG) && forallb (fun t => wf_dagb (dag_of_table t)) tabs
+  && forallb (fun p => assoc_idx p assign (length tabs) <? length tabs) (inits tr)
+  && match grun_nowf false GG cap (ginit GG cap) tr with
+     | Some s => gfinal s && negb (bad (gtop s)) && negb (gover s)
+                 && forallb (fun p => match get (ginner s) p with Some si => negb (bad si) | None => true end) (inits tr)
+     | None => false
+     end.
 End Check.
+
+Definition gdag_of_nshared (top : list nrow) (tabs : list (list nrow)) (assign : list (N * N)) : gdag :=
+  gdag_of_shared (map row_of_nrow top) (map (map row_of_nrow) tabs) (map (fun x => (N.to_nat (fst x), N.to_nat (snd x))) assign).
+Definition valid_trace_nfast (top : list nrow) (tabs : list (list nrow)) (assign : list (N * N)) (cap : nat)
+           (tr : list (glabel unit unit)) : bool :=
+  valid_trace_fast unit unit (map row_of_nrow top) (map (map row_of_nrow) tabs)
+                   (map (fun x => (N.to_nat (fst x), N.to_nat (snd x))) assign) cap tr.
